@@ -1,5 +1,6 @@
 import WM.Proto
 import WM.Model.MatcherTree
+import WM.Model.MatcherCombo
 import WM.Model.MatcherScoring
 /-!
 Protocol handler of family `c11` (also used by `c12`): builds a matcher tree from an S-expression,
@@ -13,10 +14,18 @@ matcher after every operation.
 TREE ::= (null) | (list (id..) (w..) scorer01) | (leaf SC tmw tml (blk maxid maxw minlen (id w len)..)..)
        | (union T T) | (dismax T T) | (inter T T) | (andnot T T) | (andmaybe T T) | (require T T)
        | (boost b T) | (filter (id..) excl01 boost T) | (inverse limit (missing..) weight T) | (const score T)
+       | (multi (offset T) ...)        MultiMatcher; the sub-matchers must all have the same tree shape
+       | (aunion doccount boost partsize T ...)   ArrayUnionMatcher; sub-matchers of one shape
+ROOT ::= TREE | (preload boost T ...)     (PreloadedUnionMatcher: `run` only; sub-matchers of one shape)
 SC   ::= freq | (tfidf idf) | (bm25 idf avgfl B K1)
-OP   ::= next | (skip t) | (skipq q) | (replace q) | (replace! q) | reset | (copy k) | (swap k)
-         (replace! q): a replace whose result is a new object on the real side; answered with (R 1 id score) or (R))
-OBS  ::= (1 id score supports blockq maxq) | (0) when exhausted | (!Error) when the operation raised
+OP   ::= next | (skip t) | (skipq q) | (replace q) | (replace! q) | reset | (copy k) | (swap k) | (sem T OP) | allids
+         allids: the class's own all_ids() run on a copy (the matcher does not move); answered with (A id ...)
+         (replace! q): a replace whose result is a new object on the real side; the shape of the replacement is
+         not an observable, so from here on the comparison is semantic: answered with (H (id score) ...), the
+         remaining entries that score above q.
+         (sem T OP), OP one of skip/skipq/replace: applied only if the matcher is active (skipq: and supports
+         block quality); answered with (H ...), the remaining entries scoring above T.
+OBS  ::= (1 id score supports blockq maxq) | (0) when exhausted | (!Error) when the operation raised | (H (id score)..)
 -/
 namespace WM.Drv.C11
 open WM.Proto WM.Proto.SExp WM.Matcher
@@ -63,6 +72,14 @@ def parseBlock : SExp → Option Block
   | _ => none
 
 def ratList? (e : SExp) : Option (List Rat) := listOf? rat? e
+
+/-- sub-matchers of one shape, from parsed trees -/
+def sameShape : List Any → R ((c : Shape) × List (St c))
+  | [] => pure ⟨.null, []⟩
+  | a :: rest => do
+    let more ← rest.mapM fun b =>
+      if h : b.1 = a.1 then (pure (h ▸ b.2) : R (St a.1)) else .error .notImpl
+    pure ⟨a.1, a.2 :: more⟩
 
 /-- `none`: unparseable; `some (.error e)`: the constructor raised -/
 partial def parseTree : SExp → Option (R Any)
@@ -122,80 +139,169 @@ partial def parseTree : SExp → Option (R Any)
     let s ← s.rat?
     let c ← parseTree c
     pure (do let c ← c; pure (mkConst c s))
+  | .list (.atom "aunion" :: dc :: b :: ps :: subs) => do
+    let dc ← dc.nat?
+    let b ← b.rat?
+    let ps ← ps.nat?
+    let ts ← subs.mapM parseTree
+    pure (do
+      let anys ← ts.mapM id
+      let ⟨c, ss⟩ ← sameShape anys
+      mkAUnion c ss dc b ps)
+  | .list (.atom "multi" :: segs) => do
+    let ps ← segs.mapM fun e =>
+      match e with
+      | .list [o, t] => do
+        let o ← o.nat?
+        let t ← parseTree t
+        pure (o, t)
+      | _ => none
+    pure (do
+      let anys ← ps.mapM fun (o, t) => do let a ← t; pure (o, a)
+      match anys with
+      | [] => pure (mkMulti .null [])
+      | (o, a) :: rest => do
+        let c := a.1
+        -- sub-matchers of another shape are outside the model
+        let more ← rest.mapM fun (o', b) =>
+          if h : b.1 = c then (pure (h ▸ b.2, o') : R (St c × Nat)) else .error .notImpl
+        pure (mkMulti c ((a.2, o) :: more)))
   | _ => none
 
 inductive Op where
   | next | skip (t : Nat) | skipq (q : Rat) | replace (q : Rat) | replaceR (q : Rat) | reset | copy (k : Nat)
-  | swap (k : Nat)
+  | swap (k : Nat) | sem (T : Rat) (op : Op) | allids
 
-def parseOp : SExp → Option Op
+partial def parseOp : SExp → Option Op
   | .atom "next" => some .next
   | .atom "reset" => some .reset
+  | .atom "allids" => some .allids
   | .list [.atom "skip", t] => .skip <$> t.nat?
   | .list [.atom "skipq", q] => .skipq <$> q.rat?
   | .list [.atom "replace", q] => .replace <$> q.rat?
   | .list [.atom "replace!", q] => .replaceR <$> q.rat?
   | .list [.atom "copy", k] => .copy <$> k.nat?
   | .list [.atom "swap", k] => .swap <$> k.nat?
+  | .list [.atom "sem", t, op] => do
+    let t ← t.rat?
+    let op ← parseOp op
+    match op with
+    | .skip _ | .skipq _ | .replace _ => pure (.sem t op)
+    | _ => none
   | _ => none
 
 def showR {α} (f : α → String) : R α → String
   | .ok a => f a
   | .error e => "!" ++ errName e
 
-def observe (m : Any) : String :=
-  let O := ops m.1
-  if !O.isActive m.2 then "(0)" else
-  let sup := O.supportsBQ m.2
-  let q (r : R Rat) : String := if sup then showR showRat r else "-"
-  s!"({showBool (O.isActive m.2)} {showR toString (O.id m.2)} {showR showRat (O.score m.2)} {showBool sup} {q (O.blockQuality m.2)} {q (O.maxQuality m.2)})"
+/-- what the program runner needs of a matcher value: trees (`Any`), and the array matchers of combo.py, which
+    are not tree nodes (they only occur at the root: `Or` with `matcher_type`) -/
+structure Iface (σ : Type) where
+  O : Ops σ
+  repl : σ → Rat → R σ
+  allIds : σ → R (List Nat)
+  den : σ → Den
 
-def applyOp (m : Any) (regs : List (Nat × Any)) : Op → R (Any × List (Nat × Any))
-  | .next => do let m' ← (ops m.1).next m.2; pure (⟨m.1, m'⟩, regs)
-  | .skip t => do let m' ← (ops m.1).skipTo m.2 t; pure (⟨m.1, m'⟩, regs)
-  | .skipq q => do let (m', _) ← (ops m.1).skipToQuality m.2 q; pure (⟨m.1, m'⟩, regs)
-  | .replace q => do let m' ← m.replace q; pure (m', regs)
-  | .replaceR q => do let m' ← m.replace q; pure (m', regs)
-  | .reset => do let m' ← (ops m.1).reset m.2; pure (⟨m.1, m'⟩, regs)
+def anyOps : Ops Any where
+  isActive m := (ops m.1).isActive m.2
+  id m := (ops m.1).id m.2
+  score m := (ops m.1).score m.2
+  next m := do let s ← (ops m.1).next m.2; pure ⟨m.1, s⟩
+  skipTo m t := do let s ← (ops m.1).skipTo m.2 t; pure ⟨m.1, s⟩
+  supportsBQ m := (ops m.1).supportsBQ m.2
+  blockQuality m := (ops m.1).blockQuality m.2
+  maxQuality m := (ops m.1).maxQuality m.2
+  skipToQuality m q := do let (s, k) ← (ops m.1).skipToQuality m.2 q; pure (⟨m.1, s⟩, k)
+  reset m := do let s ← (ops m.1).reset m.2; pure ⟨m.1, s⟩
+  rem m := (ops m.1).rem m.2
+
+def anyIface : Iface Any := ⟨anyOps, Any.replace, fun m => allIdsO m.1 m.2, Any.den⟩
+
+def plIface : Iface Preload := ⟨Preload.ops, fun m _ => pure m, Preload.allIds, fun _ => []⟩
+
+section Run
+variable {σ : Type} (I : Iface σ)
+
+def observe (m : σ) : String :=
+  let O := I.O
+  if !O.isActive m then "(0)" else
+  let sup := O.supportsBQ m
+  let q (r : R Rat) : String := if sup then showR showRat r else "-"
+  s!"({showBool (O.isActive m)} {showR toString (O.id m)} {showR showRat (O.score m)} {showBool sup} {q (O.blockQuality m)} {q (O.maxQuality m)})"
+
+partial def applyOp (m : σ) (regs : List (Nat × σ)) : Op → R (σ × List (Nat × σ))
+  | .next => do let m' ← I.O.next m; pure (m', regs)
+  | .skip t => do let m' ← I.O.skipTo m t; pure (m', regs)
+  | .skipq q => do let (m', _) ← I.O.skipToQuality m q; pure (m', regs)
+  | .replace q => do let m' ← I.repl m q; pure (m', regs)
+  | .replaceR q => do let m' ← I.repl m q; pure (m', regs)
+  | .reset => do let m' ← I.O.reset m; pure (m', regs)
+  | .allids => pure (m, regs)
   | .copy k => pure (m, (k, m) :: regs.filter (·.1 != k))
   | .swap k =>
     match regs.find? (·.1 == k) with
     | some (_, r) => pure (r, (k, m) :: regs.filter (·.1 != k))
     | none => pure (m, regs)
+  | .sem _ op =>
+    if !I.O.isActive m then pure (m, regs) else
+    match op with
+    | .skipq _ => if I.O.supportsBQ m then applyOp m regs op else pure (m, regs)
+    | _ => applyOp m regs op
 
-/-- after a reshaping `replace(q)` only the entry the replacement is on is compared, and only if it scores
-    above `q` (the shape of the replacement is not an observable, DESIGN Appendix F) -/
-def observeReshaped (m : Any) (q : Rat) : String :=
-  let O := ops m.1
-  if O.isActive m.2 then
-    match O.id m.2, O.score m.2 with
-    | .ok x, .ok s => if q < s then s!"(R 1 {x} {showRat s})" else "(R)"
-    | _, .error e => s!"(R !{errName e})"
-    | .error e, _ => s!"(R !{errName e})"
-  else "(R)"
+/-- the semantic observation: what is left above the threshold -/
+def observeSem (m : σ) (t : Rat) : String :=
+  "(H " ++ " ".intercalate ((hi t (I.den m)).map (fun p => s!"({p.1} {showRat p.2})")) ++ ")"
 
-def runProg (m : Any) (prog : List Op) : List String :=
-  let rec go (m : Any) (regs : List (Nat × Any)) (ops : List Op) (acc : List String) : List String :=
+def runProg (m : σ) (prog : List Op) : List String :=
+  let rec go (m : σ) (regs : List (Nat × σ)) (ops : List Op) (acc : List String) : List String :=
     match ops with
     | [] => acc.reverse
     | op :: rest =>
-      match applyOp m regs op with
+      match applyOp I m regs op with
       | .error e => (s!"(!{errName e})" :: acc).reverse
       | .ok (m', regs') =>
         match op with
-        | .replaceR q => go m' regs' rest (observeReshaped m' q :: acc)
-        | _ => go m' regs' rest (observe m' :: acc)
-  go m [] prog [observe m]
+        | .replaceR q => go m' regs' rest (observeSem I m' q :: acc)
+        | .sem t _ => go m' regs' rest (observeSem I m' t :: acc)
+        | .allids =>
+          let o := match I.allIds m' with
+            | .ok L => "(A" ++ String.join (L.map fun i => s!" {i}") ++ ")"
+            | .error e => s!"(A !{errName e})"
+          go m' regs' rest (o :: acc)
+        | _ => go m' regs' rest (observe I m' :: acc)
+  go m [] prog [observe I m]
+
+end Run
 
 def showDen (L : Den) : String :=
   showList (fun p => s!"({p.1} {showRat p.2})") L
 
+/-- the root that is not a tree node: `(preload boost T ...)` -/
+def runRoot (tree : SExp) (prog : List Op) : Option (List String) :=
+  match tree with
+  | .list (.atom "preload" :: b :: subs) => do
+    let b ← b.rat?
+    let ts ← subs.mapM parseTree
+    pure (match (do let anys ← ts.mapM id
+                    let ⟨c, ss⟩ ← sameShape anys
+                    let m ← Preload.init (ops c) ss b
+                    pure (runProg plIface m prog) : R (List String)) with
+      | .ok out => out
+      | .error e => [s!"(!{errName e})"])
+  | _ =>
+    match parseTree tree with
+    | some (.ok m) => some (runProg anyIface m prog)
+    | some (.error e) => some [s!"(!{errName e})"]
+    | none => none
+
 def handle : List SExp → String
   | [.atom "run", tree, .list prog] =>
-    match parseTree tree, prog.mapM parseOp with
-    | some (.ok m), some prog => "(" ++ " ".intercalate (runProg m prog) ++ ")"
-    | some (.error e), some _ => s!"((!{errName e}))"
-    | _, _ => "bad-op"
+    match prog.mapM parseOp with
+    | some prog =>
+      match runRoot tree prog with
+      | some out => "(" ++ " ".intercalate out ++ ")"
+      | none => "bad-op"
+    | none => "bad-op"
   | [.atom "den", tree] =>
     match parseTree tree with
     | some (.ok m) => showDen m.den
